@@ -344,6 +344,8 @@ def gen_ops(rng, n):
     # corpus first: the DESIGN §7-B reproduction and the unit-test shapes
     tok70 = '0.' + '0' * 62 + '125777'
     head = [['S ' + hx(tok70 + '\n1,2\n'), 'rowv 2c', 'resync?', 'rowv 2c'],
+            ['S ' + hx('# c\n\n1,2\n'), 'row 0 2c', 'resync?', 'row 2 2c'],
+            ['S ' + hx('#' + 'y' * 64 + '\n# d\n'), 'rowv 2c'],
             ['S ' + hx('1.0,2.0,3.0,4.0,5.0,6.0'), 'row 5 2c'],
             ['S ' + hx('# c\n' + '#' + 'x' * 300 + '\n1,+2,-3\nfoobar'), 'row 3 2c', 'resync?', 'rowv 2c'],
             ['S -', 'rowv 2c', 'row 0 2c', 'row 1 2c'],
